@@ -495,16 +495,19 @@ _DIGEST_BITS = {'sha256': 256, 'sha512': 512, 'crc16': 16, 'crc32c': 32}
 
 
 def digest_of(alg, seq: Seq):
-    """T3: digests are an uninterpreted, deterministic function of the input: equal inputs give the same term."""
-    if seq.is_concrete():
-        n = seq.length()
-        data = seq.value().to_bytes(n // 8, 'big') if n else b''
-        if alg in ('crc16', 'crc32c'):
-            from .spec import crc as _crc
-            return _crc.crc16_xmodem(data) if alg == 'crc16' else _crc.crc32c(data)
-        return getattr(_hashlib, alg)(data).digest()
-    c = ctx()
+    """T3: digests are an uninterpreted, deterministic function of the input: equal inputs give the same term.
+    Every digest taken on a path is registered (also those of concrete inputs, with their real value), and a lookup by
+    bit-string equality precedes everything else, so that an input that is symbolic at one call and has become concrete
+    at another (after a fork fixed its length) still maps to the same term."""
+    from . import sym as _sym
+    c = _sym._CTX
+    concrete = seq.is_concrete()
+    if c is None:
+        if not concrete:
+            raise Unsupported('digest of symbolic data outside a path context')
+        return _real_digest(alg, seq)
     reg = c.store.setdefault('digests', [])
+    found = None
     for (a, s, const) in reg:
         if a != alg:
             continue
@@ -513,11 +516,34 @@ def digest_of(alg, seq: Seq):
         except Unsupported:
             continue
         if e is True or (e is not False and c.valid(e)):
-            return SymBytes([Val(_DIGEST_BITS[alg], const)])
+            if found is None:
+                found = const
+            else:
+                # functionality: two registered inputs that both provably equal this input have the same digest
+                fa = z3.IntVal(int.from_bytes(found, 'big')) if _isinstance(found, builtins.bytes) else found
+                fb = z3.IntVal(int.from_bytes(const, 'big')) if _isinstance(const, builtins.bytes) else const
+                c.add(fa == fb)
+    if found is not None:
+        if _isinstance(found, builtins.bytes):
+            return found
+        return SymBytes([Val(_DIGEST_BITS[alg], found)])
+    if concrete:
+        d = _real_digest(alg, seq)
+        reg.append((alg, seq, d))
+        return d
     const = z3.Int(f'H{alg}#{len(reg)}')
     c.add(z3.And(const >= 0, const < (1 << _DIGEST_BITS[alg])))
     reg.append((alg, seq, const))
     return SymBytes([Val(_DIGEST_BITS[alg], const)])
+
+
+def _real_digest(alg, seq):
+    n = seq.length()
+    data = seq.value().to_bytes(n // 8, 'big') if n else b''
+    if alg in ('crc16', 'crc32c'):
+        from .spec import crc as _crc
+        return _crc.crc16_xmodem(data) if alg == 'crc16' else _crc.crc32c(data)
+    return getattr(_hashlib, alg)(data).digest()
 
 
 class _Hash:
